@@ -46,6 +46,7 @@ type TierOpts struct {
 	Preempt     int   `json:"preempt"`
 	PermuteMaps bool  `json:"permute_maps"`
 	SelectFork  bool  `json:"select_fork"`
+	Trace       bool  `json:"trace"`
 	MaxPaths    int   `json:"max_paths"`
 	TimeoutS    int   `json:"timeout_s"`
 	QueryMS     int   `json:"query_ms"`
@@ -217,7 +218,7 @@ func runHarness(ld *loaded, prop string, h HarnessSpec, tier int, known map[stri
 	cfg := &interp.Config{
 		Prog: ld.prog, Target: ld.target, Sizes: types.SizesFor("gc", "amd64"),
 		Z3: envOr("VX_Z3", "/usr/bin/z3"), QueryMS: opts.QueryMS, Workers: workers(),
-		MaxSteps: opts.MaxSteps, MaxPaths: opts.MaxPaths, Preempt: opts.Preempt, PermuteMaps: opts.PermuteMaps, SelectFork: opts.SelectFork,
+		MaxSteps: opts.MaxSteps, MaxPaths: opts.MaxPaths, Preempt: opts.Preempt, PermuteMaps: opts.PermuteMaps, SelectFork: opts.SelectFork, Trace: opts.Trace,
 		Known: known, Tier: tier, StopAtFirstViolation: true, SymbolicChoices: os.Getenv("VX_CONCRETE_CHOICES") == "",
 	}
 	if opts.TimeoutS > 0 {
@@ -517,6 +518,7 @@ func cmdCheck(args []string) {
 			"paths": st.Paths, "paths_discarded_by_assume": st.Discarded, "decisions": st.Transitions, "solver_queries": st.Queries,
 			"solver_s": float64(st.SolverNS) / 1e9, "assertion_checks": st.AssertChecks, "assertions_reached": st.AssertsHit,
 			"ssa_steps": st.Steps, "max_decision_depth": st.MaxDecisions, "wall_s": r.WallS,
+			"race_candidate_pairs": st.RacePairs, "race_queries": st.RaceQueries, "trace_sync_events": st.TraceEvents,
 			"native_revalidations_ok": r.Replays, "native_mismatches": r.ReplayMismatch,
 			"violations_confirmed": r.Confirmed, "counterexamples_unconfirmed": r.Unconfirmed,
 			"natively_replayable": !r.Spec.NoNative,
@@ -656,6 +658,7 @@ func cmdRun(args []string) {
 	preempt := fs.Int("preempt", 0, "")
 	permute := fs.Bool("permute", false, "")
 	selFork := fs.Bool("select-fork", false, "")
+	traceF := fs.Bool("trace", false, "record event traces and run the SMT race analysis")
 	maxPaths := fs.Int("max-paths", 0, "")
 	w := fs.Int("workers", 16, "")
 	knownS := fs.String("known", "", "comma separated known-finding ids")
@@ -674,7 +677,7 @@ func cmdRun(args []string) {
 		}
 	}
 	cfg := &interp.Config{Prog: ld.prog, Target: ld.target, Sizes: types.SizesFor("gc", "amd64"), Z3: envOr("VX_Z3", "/usr/bin/z3"),
-		Workers: *w, MaxPaths: *maxPaths, Preempt: *preempt, PermuteMaps: *permute, SelectFork: *selFork, Known: known, Tier: *tier, StopAtFirstViolation: true, SymbolicChoices: os.Getenv("VX_CONCRETE_CHOICES") == ""}
+		Workers: *w, MaxPaths: *maxPaths, Preempt: *preempt, PermuteMaps: *permute, SelectFork: *selFork, Trace: *traceF, Known: known, Tier: *tier, StopAtFirstViolation: true, SymbolicChoices: os.Getenv("VX_CONCRETE_CHOICES") == ""}
 	cfg.Prepare()
 	entry, err := interp.Entry(cfg, fn)
 	if err != nil {
@@ -685,6 +688,9 @@ func cmdRun(args []string) {
 	fmt.Printf("paths=%d discarded=%d decisions=%d queries=%d solver=%.2fs asserts=%d steps=%d wall=%.2fs\n", st.Paths, st.Discarded, st.Transitions, st.Queries,
 		float64(st.SolverNS)/1e9, st.AssertChecks, st.Steps, time.Since(t0).Seconds())
 	fmt.Printf("asserts: %v known: %v\n", st.AssertsHit, st.KnownHit)
+	if *traceF {
+		fmt.Printf("race analysis: sync_events=%d candidate_pairs=%d queries=%d\n", st.TraceEvents, st.RacePairs, st.RaceQueries)
+	}
 	for _, m := range st.Inconclusive {
 		fmt.Println("INCONCLUSIVE:", m)
 	}
